@@ -11,7 +11,8 @@ FIX_COMMITS = ['c5b9684 (C05 DataReader EOD==0)', 'c3bb002 (C17 ESC prefix on 1x
                '19de51f (C11 HttpRelay never sets a result)', '1cf38fb + ecb2777 (C08 STARTTLS injection, server and client)',
                '81dab84 (C08 AUTH without argument)', '3808adf (C06 quoted-pairs in paths)', '5259bd2 (C06 HttpRelay connection reuse)',
                '2cbb9ad (C14 end-of-data reply outside data timeout)', '5450342 + 93f16c4 (C14 unbounded TLS close, relay and edge)',
-               '656a561 (C14 AUTH exchange outside the command timeout)', 'c8d76aa (C14 HttpRelay drain of the previous response outside the timeout)']
+               '656a561 (C14 AUTH exchange outside the command timeout)', 'c8d76aa (C14 HttpRelay drain of the previous response outside the timeout)',
+               '891cd1e + b47e514 (C14 unbounded TLS handshake, server and tls_immediately relay client)']
 
 ENGINES = [
     {'name': 'runner', 'path': 'vf/runner.py', 'serves_properties': [],
